@@ -68,6 +68,16 @@ pub fn staged_families(thorough: bool) -> Vec<Family> {
         staged("dup-ops-3-conn2", vec![stage(&[VK::Add, VK::Mul], 3, &[0], true, true)], &conn, 2, 3, &[2]),
     ];
     {
+        // two wide calls (mul_add / select / horner) over handles: CSE keys of the wide pools
+        let mut w = fam("wide2-k2-c0", &[VK::MulAdd, VK::Select, VK::Horner], &[AK::Connect], 2, 0, 3, 0, &[], 2, true, true);
+        w.wide_no_atoms = true;
+        v.push(w);
+        // connect chains: one or two ops, up to three connects among four publics (DSU paths)
+        let mut c3 = fam("conn3-k2", &[VK::Add, VK::Mul], &[AK::Connect], 2, 3, 4, 0, &[2], 0, true, true);
+        c3.assert_split = Some((3, 1));
+        v.push(c3);
+    }
+    {
         // de-duplication chains (small): four ops over two inputs, inputs may be aliased, one
         // more connect involving a computed value
         let mut dd = staged("dedup-chain-4ops-2in", vec![stage(&[VK::Add, VK::Mul], 4, &[0], true, false)], &[AK::Connect], 2, 2, &[]);
